@@ -204,6 +204,48 @@ func genRepeats(r *RNG, parents, m, maxLabels int) []string {
 	return sortUniq(out)
 }
 
+// genSteerShort steers the builder's short-node table to exactly s bits
+// (8..10): below a dense two-byte prefix space (byte-wide nodes, which do not
+// enter the statistics) every parent carries one 4-bit node whose label set is
+// one of the first C(s,k) k-subsets of the 16 low nibbles, k = 2..4, each set
+// used `uses` times. With that many equally frequent bitmaps per label count
+// the cost model can only map them all at table size s. Measured on the
+// pinned tree: s=8 from 10 080 keys (uses 20), s=9 from 24 840 (30), s=10 from
+// 64 500 (50).
+func genSteerShort(s, uses int) []string {
+	var out []string
+	pi := 0
+	for k := 2; k <= 4; k++ {
+		var sets [][]int
+		var rec func(start int, cur []int)
+		rec = func(start int, cur []int) {
+			if len(cur) == k {
+				sets = append(sets, append([]int{}, cur...))
+				return
+			}
+			for i := start; i < 16; i++ {
+				rec(i+1, append(cur, i))
+			}
+		}
+		rec(0, nil)
+		cnt := 1
+		for i := 0; i < k; i++ { // C(s,k)
+			cnt = cnt * (s - i) / (i + 1)
+		}
+		for si := 0; si < cnt && si < len(sets); si++ {
+			for u := 0; u < uses; u++ {
+				p := string([]byte{byte(pi >> 8), byte(pi)})
+				pi++
+				hi := byte((si+u)%16) << 4
+				for _, lo := range sets[si] {
+					out = append(out, p+string([]byte{hi | byte(lo)}))
+				}
+			}
+		}
+	}
+	return sortUniq(out)
+}
+
 // genDeep: caterpillars / prefix chains.
 func genDeep(r *RNG, depth int) []string { return genDeepStyle(r, depth, r.Intn(4)) }
 
@@ -564,5 +606,16 @@ func directedKeySets() []KeySet {
 		chain = append(chain, rep("a", i))
 	}
 	add("deep-chain-1500", chain...)
+	// three levels of byte-wide nodes with leaves sitting among the inner nodes
+	// of the upper levels (level tables, rank arithmetic inside the big region)
+	tri := []string{"0", "5", "zz", "b0"}
+	for x := 0; x < 11; x++ {
+		for y := 0; y < 11; y++ {
+			for z := 0; z < 11; z++ {
+				tri = append(tri, string([]byte{byte('a' + x), byte('a' + y), byte('a' + z)}))
+			}
+		}
+	}
+	add("three-big-levels-with-early-leaves", tri...)
 	return out
 }
